@@ -154,8 +154,6 @@ func (e *Encoder) writeObject(data interface{}) (int, error) {
 		}
 	}
 	if byte(length) <= _objectTagMaxLen {
-		// NOTE: when length=2, length+_objectLenTagMin='b', the same as the binary chunk start with,
-		// which will be special processed in decoder
 		if _, err := e.writeBT(byte(length) + _objectLenTagMin); err != nil {
 			return 0, err
 		}
